@@ -116,6 +116,13 @@ def generate(streams: core.Streams, tier: str) -> dict:
         format_pipeline["vars"]["v"] = "F"
     if gen.chance(w, 0.3):
         format_pipeline["finalizers"] = [{"type": "template", "template": "<F {{ queries }} F>"}]
+    # some backends register a pipeline for their *default* format too
+    default_format_pipeline = None
+    if gen.chance(w, 0.35):
+        default_format_pipeline = {"vars": {"kD": "D"}, "transformations": [{"type": "field_name_prefix", "prefix": "D."}],
+                                   "postprocessing": [{"type": "embed", "prefix": "[D ", "suffix": " D]"}]}
+        if gen.chance(w, 0.4):
+            default_format_pipeline["vars"]["v"] = "D"
     ops: list[dict] = []
     regs: list[str] = []  # names of registers holding composed pipelines
     reg_model: dict[str, list[int]] = {}
@@ -150,20 +157,20 @@ def generate(streams: core.Streams, tier: str) -> dict:
             regs.append(reg)
         elif r < 0.88 and (regs or names):
             ops.append({"op": "UseInBackend", "src": gen.pick(s, regs + names),
-                        "format": gen.pick(s, ["default", "alt"])})
+                        "format": gen.pick(s, ["default", "alt", None])})
         else:
             if regs or names:
                 ops.append({"op": gen.pick(s, ["Check", "CheckDirect"]),
                             "src": gen.pick(s, regs + names if gen.chance(s, 0.3) else (regs or names)),
-                            "format": gen.pick(s, ["default", "alt"])})
+                            "format": gen.pick(s, ["default", "alt", None])})
     target = regs[-1] if regs else names[0]
-    ops.append({"op": gen.pick(s, ["Check", "Check", "CheckDirect"]), "src": target, "format": gen.pick(s, ["default", "alt"])})
+    ops.append({"op": gen.pick(s, ["Check", "Check", "CheckDirect"]), "src": target, "format": gen.pick(s, ["default", "alt", None])})
     if regs and gen.chance(s, 0.6):
         # an older composite or an operand, after later compositions took over (some of) its items
         ops.append({"op": gen.pick(s, ["Check", "CheckDirect", "CheckDirect"]), "src": gen.pick(s, regs + names),
-                    "format": gen.pick(s, ["default", "alt"])})
+                    "format": gen.pick(s, ["default", "alt", None])})
     return {"rich": rich, "specs": specs, "backend_pipeline": backend_pipeline,
-            "format_pipeline": format_pipeline, "ops": ops}
+            "format_pipeline": format_pipeline, "default_format_pipeline": default_format_pipeline, "ops": ops}
 
 
 # ------------------------------------------------------------------------------------------------
@@ -238,6 +245,8 @@ def _applies(item: dict, product: str) -> bool:
 def predict(sc: dict, idx: list[int], fmt: str) -> Any:
     """Oracle A: the complete conversion output predicted from the specs alone."""
     chain = [sc["backend_pipeline"]] + [sc["specs"][i] for i in idx] + ([sc["format_pipeline"]] if fmt == "alt" else [])
+    if fmt != "alt" and sc.get("default_format_pipeline"):
+        chain.append(sc["default_format_pipeline"])  # also when the format is implicit (None)
     merged: dict[str, Any] = {}
     for p in chain:
         merged.update(p.get("vars", {}))
@@ -323,6 +332,8 @@ def _configure_class(sc: dict) -> Any:
     cls = simbackend.SimBackend
     cls.backend_processing_pipeline = world.build_pipeline(sc["backend_pipeline"])
     cls.output_format_processing_pipeline["alt"] = world.build_pipeline(sc["format_pipeline"])
+    if sc.get("default_format_pipeline"):
+        cls.output_format_processing_pipeline["default"] = world.build_pipeline(sc["default_format_pipeline"])
     return cls
 
 
@@ -586,6 +597,10 @@ def shrink(sc: dict) -> Iterable[dict]:
             c = copy.deepcopy(sc)
             c["specs"][i]["priority"] = 0
             yield c
+    if sc.get("default_format_pipeline"):
+        c = copy.deepcopy(sc)
+        c["default_format_pipeline"] = None
+        yield c
     if sc["format_pipeline"].get("finalizers"):
         c = copy.deepcopy(sc)
         del c["format_pipeline"]["finalizers"]
